@@ -43,14 +43,20 @@ func runMut(raw Sx) (Sx, Sx) {
 	root.Path("/")
 	root.Route(root.GET("/rootonly").To(say("R")))
 	c.Add(root)
+	foreign := new(restful.WebService) // never added to the container
+	foreign.Path("/foreign")
+	foreign.Route(foreign.GET("/y").To(say("F")))
 	wa := new(restful.WebService)
 	wa.Path("/a")
 	wa.Route(wa.GET("/x").To(say("A")))
 	wa.Route(wa.GET("/{id}/y").To(say("AY")))
 	// user code that asks the container about itself while serving (as the OPTIONS / CORS filters do)
 	wa.Route(wa.GET("/reg").To(func(rq *restful.Request, rp *restful.Response) {
-		n := len(c.RegisteredWebServices())
-		if n >= 3 {
+		l := c.RegisteredWebServices()
+		n := len(l)
+		// ... and goes on to use the list as its own: what it appends belongs to the caller, not to the container
+		l = append(l, foreign)
+		if n >= 3 && len(l) == n+1 {
 			rp.Write([]byte("REG"))
 		}
 	}))
@@ -184,6 +190,7 @@ func runMut(raw Sx) (Sx, Sx) {
 		{"OPTIONS /b/t", []string{"200:"}, true},
 		{"/b/t", []string{"200:BT", "404:"}, false},
 		{"/c/y", []string{"200:C", "404:"}, false},
+		{"/foreign/y", []string{"404:"}, true}, // a service nobody added
 	}
 	var swg sync.WaitGroup
 	for s := 0; s < servers; s++ {
